@@ -23,8 +23,8 @@ job('utf', 'extract_utf8', 'h_extract_utf8', ALL, expect=[r'stp_extract_utf8\.po
 job('utf', 'extract_utf16', 'h_extract_utf16', ALL, expect=[r'stp_extract_utf16\.postcondition\.[1-3]'])
 job('utf', 'lemma_utf_roundtrip', 'h_lemma_utf_roundtrip', ['C01'], kind='lemma', expect=[r'lemma_utf\.[1-4]'])
 job('utf', 'raise_conversion_error', 'h_raise_conversion_error', ['C02', 'C03'], expect=[r'stp_raise_conversion_error\.postcondition'])
-job('utf', 'validate_utf8', 'h_validate_utf8', ['C02', 'C03'], expect=[r'stp_validate_utf8\.step\.[12]', r'stp_validate_utf8\.postcondition'])
-job('utf', 'cleanup_utf8', 'h_cleanup_utf8', ['C02', 'C03'], expect=[r'stp_cleanup_utf8\.step\.[1-4]', r'stp_cleanup_utf8\.postcondition'])
+job('utf', 'validate_utf8', 'h_validate_utf8', ALL, expect=[r'stp_validate_utf8\.step\.[12]', r'stp_validate_utf8\.postcondition'])
+job('utf', 'cleanup_utf8', 'h_cleanup_utf8', ALL, expect=[r'stp_cleanup_utf8\.step\.[1-4]', r'stp_cleanup_utf8\.postcondition'])
 
 _common = dict(level='proof',
     trusted_base=['contracts/prelude.h stubs (char_traits::copy as havoc + ghost-index equalities)', 'spec/utf_spec.h (oracle written from the Unicode Standard encoding forms and the property\'s list of tolerated forms)',
